@@ -138,23 +138,26 @@ bool linepart::array::apply(const transform &tr, int dim, span<const double> src
 			}
 			pt = tr.part(dim, val, old.usr);
 			// minimize leading line
-			if (old._cut > pt._cut) {
+			if (pt.usr && old._cut > pt._cut) {
 				pt._cut = old._cut;
+			}
+			// minimize trailing line
+			if (pt.usr == old.usr && old._trim > pt._trim) {
+				pt._trim = old._trim;
 			}
 			// partial segment
 			if (pt.raw < old.raw) {
 				old.raw -= pt.raw;
 				old.usr -= pt.raw;
 				old._cut = 0;
+				if (!old.usr) {
+					old._trim = 0;
+				}
 			}
 			else {
 				// smaller old segment
 				if (old.raw < pt.raw) {
 					pt.raw = old.raw;
-				}
-				// minimize trailing line
-				if (old._trim > pt._trim) {
-					pt._trim = old._trim;
 				}
 				// continue in next part
 				if (++pos < oldlen) {
